@@ -1,24 +1,29 @@
 #!/usr/bin/env python3
 """C13 — map, filter and reduce: standard higher-order semantics and scoping.
 
-  K1  collection handling, by kind of the *evaluated* collection (variant
-      specialisation over Evaluated::{New,Raw} × the six JSON kinds, 12 cases per
-      operator): Array → the per-element iteration runs over the array's
-      elements; Null → it runs over an empty vector; every other kind → the
-      iteration is unreachable and the function returns Err; identical in the
-      three operators (sibling agreement);
-  K2  evaluated once: the collection operand (and reduce's initial value) is
-      parsed and evaluated exactly once, against the outer data, outside the
-      per-element code; the expression operand is parsed once, outside it;
-  K3  scoping (R-PROV S2): the data handed to the per-element evaluation never
-      carries outer-data provenance; in map/filter it is the iteration element; in
-      reduce it is a map built in place with exactly two insertions under the
-      constant keys "current" and "accumulator";
-  K4  shape: map's result is collect(map(iter)) of the per-element results — no
-      filtering/reordering adaptor; filter pushes the iteration element itself,
-      only under the truthy edge of the shared truthiness function; reduce is a
-      left fold whose closure result is the next accumulator, seeded with the
-      evaluated initial value; no element of the collection is ever parsed (C04).
+  K1  collection handling, by kind of the *evaluated* collection (Evaluated::{New,Raw} × the six JSON kinds, 12 cases
+      per operator), read on the PATH SUMMARIES of the operator's function with the kind fixed (`known` hook of
+      rules/pathsum.py, on the Evaluated value or on its conversion to a plain Value): Array → the paths that reach the
+      iteration iterate over the Array payload; Null → over a vector built empty; every other kind → no path reaches the
+      iteration and every path returns Err; identical in the three operators (sibling agreement).  Nothing depends on
+      how the match is spelled; a decision hidden in a private helper is read on the helper-inlined view (inline-safe);
+      a receiver the reader cannot classify is UNDECIDED, an iteration reachable for an error kind is a violation;
+  K2  evaluated once: the collection operand (and reduce's initial value) is parsed and evaluated exactly once,
+      against the outer data, outside the per-element code; the expression operand is parsed once, outside it
+      (provenance of the evaluation sites of the operator's extended unit: function, closures, helper functions);
+  K3  scoping (R-PROV S2): the data handed to the per-element evaluation never carries outer-data provenance; in
+      map/filter it is the iteration element; in reduce it is a map built in place with exactly two insertions under
+      the constant keys "current" and "accumulator";
+  K4  shape: map's result is collect(map(iter)) of the per-element results — no filtering/reordering adaptor; filter
+      is read on the PER-ELEMENT OUTCOME TABLE (path summaries of one element's processing — closure handed to
+      fold / try_fold / filter_map / filter / for_each, or one iteration of a loop): every path KEEPs (push, Some(..),
+      true), DROPs, or ends in an ERROR; a KEEP path adds exactly one value, the element itself, and lies under
+      truthy(value of the expression) == true of the shared truthiness function, a DROP path under == false (read
+      from call-site atoms or from Option/Result combinator chains in case normal form); reduce is a left fold whose
+      closure result on every non-error path is the evaluated expression, seeded with the evaluated initial value;
+      no element of the collection is ever parsed (C04).
+  Per-element clauses are not read through a helper function that holds the per-element evaluation: they are
+  UNDECIDED on the program as written and decided on the view with the helper inlined at its call site.
 Not decided: results on nested expressions (value-level).
 """
 import re
@@ -79,45 +84,6 @@ def adaptor_of(u, site):
             if e[0] == "agg" and e[1].get("closure") == cur.key:
                 return bi, t, cur
     return None
-
-
-def collection_matrix(ctx, roles, u, coll_site, adaptor_bi, name, cfg):
-    """Outcome per (Evaluated variant, JSON kind) of the evaluated collection."""
-    root = u.root
-    facts = roles.facts
-    ev_adt = roles.evaluated_adt
-    # expression of the evaluated collection
-    def is_coll(e):
-        e = strip_payload(e)
-        return e[0] == "call" and e[3] == coll_site.bi and e[1].get("key") == roles.parsed_evaluate
-
-    res = {}
-    for ev in facts.variants(ev_adt):
-        for v in facts.variants(VALUE):
-            def assume(e, adt, _ev=ev, _v=v):
-                if adt == ev_adt and is_coll(e):
-                    return _ev
-                if adt == VALUE:
-                    x = strip_refs(e)
-                    if x[0] == "field" and x[1][0] == "downcast" and x[1][2] == _ev and is_coll(x[1][1]):
-                        return _v
-                return None
-            restrict = P.specialise_unit(roles, root.key, assume)
-            blocks = restrict[root.key]
-            if adaptor_bi in blocks:
-                with root.restricted(blocks):
-                    recv = root.trace(root.blocks[adaptor_bi]["term"]["args"][0])
-                from_payload = expr_mentions(recv, lambda x: x[0] == "downcast" and x[2] == "Array")
-                empty = (expr_mentions(recv, lambda x: x[0] == "call" and x[1] and re.search(r"Vec::<T>::new$|Vec::<T>::with_capacity$|^std::iter::empty$|Default>::default$", x[1]["path"]) is not None)
-                         or expr_mentions(recv, lambda x: x[0] == "agg" and x[1].get("agg") == "Array" and not x[2])) and not from_payload      # Vec::new(), vec![], &[], iter::empty()
-                res[(ev, v)] = "ITER(elements)" if from_payload else ("ITER(empty)" if empty else "ITER(?)")
-            else:
-                with root.restricted(blocks):
-                    r = strip_refs(root.trace(0))
-                cands = r[2] if r[0] == "phi" else [r]
-                errs = [x for x in cands if strip_refs(x)[0] == "agg" and strip_refs(x)[1].get("variant") == "Err"]
-                res[(ev, v)] = "ERR" if errs and len(errs) == len([x for x in cands if not (strip_refs(x)[0] == "call" and "from_residual" in (strip_refs(x)[1] or {}).get("path", ""))]) else "OTHER(%s)" % show_expr(r)[:60]
-    return res
 
 
 EMPTY_SRC = re.compile(r"Vec::<T>::new$|Vec::<T>::with_capacity$|^std::iter::empty$|Default>::default$")
